@@ -209,19 +209,19 @@ Proof. exact conditional_is_sticky_program. Qed.
 Print Assumptions C17_conditional_is_sticky.
 
 (* Every verdict given in the presence of conditional sections is also given for the
-   program without them ... *)
+   program without them (which does not panic either) ... *)
 Theorem C17_cond_verdicts_subset :
-  forall (p : cprogram) (vs vsc : list verdict),
-    check (map snd p) = Ok vs -> check_c p = Ok vsc -> incl vsc vs.
-Proof. exact cond_verdicts_subset. Qed.
+  forall (p : cprogram) (vsc : list verdict),
+    check_c p = Ok vsc -> exists vs, check (map snd p) = Ok vs /\ incl vsc vs.
+Proof. exact cond_verdicts_subset_total. Qed.
 Print Assumptions C17_cond_verdicts_subset.
 
 (* ... hence the partial soundness theorem holds with conditional sections (whose
    conditions mention no variable and are taken by make: deletable speaks about the
    lines as make reads them). *)
 Theorem C17_verdict_sound_cond_partial :
-  forall (p : cprogram) (vs vsc : list verdict) (vd : verdict),
-    wf_program (map snd p) = true -> check (map snd p) = Ok vs -> check_c p = Ok vsc -> In vd vsc ->
+  forall (p : cprogram) (vsc : list verdict) (vd : verdict),
+    wf_program (map snd p) = true -> check_c p = Ok vsc -> In vd vsc ->
     guard (map snd p) vd = true -> deletable (map snd p) (vd_flagged vd).
-Proof. exact verdict_sound_cond. Qed.
+Proof. exact verdict_sound_cond_total. Qed.
 Print Assumptions C17_verdict_sound_cond_partial.
